@@ -270,7 +270,7 @@ pub fn lit(v: f64) -> String {
         body
     }
 }
-fn pow2(e: u32) -> String {
+pub fn pow2(e: u32) -> String {
     // decimal string of 2^e
     let mut digits: Vec<u8> = vec![1];
     for _ in 0..e {
@@ -441,10 +441,87 @@ impl Emitter {
     }
 }
 
-fn ilit(v: i64) -> String {
+pub fn ilit(v: i64) -> String {
     if v < 0 {
         format!("(- {})", -(v as i128))
     } else {
         format!("{}", v)
     }
+}
+
+/// Self-contained formula (nested `let`s, no global names except the input variables x_i) for the
+/// conjunction of the first `upto` trace entries of a run; `None` if it mentions a term that needs an
+/// auxiliary declaration (sqrt) or an uninterpreted function.  Used by the closure check.
+pub fn inline_path_condition(a: &Arena, upto: usize) -> Option<String> {
+    use std::collections::BTreeSet;
+    let mut need: BTreeSet<u32> = BTreeSet::new();
+    fn collect_t(a: &Arena, t: u32, need: &mut BTreeSet<u32>) -> bool {
+        if need.contains(&t) {
+            return true;
+        }
+        let ok = match a.terms[t as usize].t {
+            T::C(_) => return true,
+            T::V(_) => true,
+            T::Add(x, y) | T::Sub(x, y) | T::Mul(x, y) | T::Div(x, y) | T::Max(x, y) | T::Min(x, y) => collect_t(a, x, need) && collect_t(a, y, need),
+            T::Neg(x) | T::Abs(x) => collect_t(a, x, need),
+            T::Fma(x, y, z) => collect_t(a, x, need) && collect_t(a, y, need) && collect_t(a, z, need),
+            T::Ite(c, x, y) => collect_b(a, c, need) && collect_t(a, x, need) && collect_t(a, y, need),
+            T::Sqrt(_) | T::Uf(_, _) | T::Pow(_, _) => false,
+        };
+        need.insert(t);
+        ok
+    }
+    fn collect_b(a: &Arena, b: u32, need: &mut BTreeSet<u32>) -> bool {
+        match a.bools[b as usize].0.clone() {
+            B::K(_) => true,
+            B::Lt(x, y) | B::Eq(x, y) => collect_t(a, x, need) && collect_t(a, y, need),
+            B::Not(x) => collect_b(a, x, need),
+            B::And(xs) | B::Or(xs) => xs.iter().all(|&x| collect_b(a, x, need)),
+        }
+    }
+    fn r(a: &Arena, x: u32) -> String {
+        match a.terms[x as usize].t {
+            T::C(_) => lit(a.terms[x as usize].val),
+            _ => format!("t{}", x),
+        }
+    }
+    fn bexpr(a: &Arena, b: u32) -> String {
+        match a.bools[b as usize].0.clone() {
+            B::K(v) => (if v { "true" } else { "false" }).to_string(),
+            B::Lt(x, y) => format!("(< {} {})", r(a, x), r(a, y)),
+            B::Eq(x, y) => format!("(= {} {})", r(a, x), r(a, y)),
+            B::Not(x) => format!("(not {})", bexpr(a, x)),
+            B::And(xs) => format!("(and {})", xs.iter().map(|&x| bexpr(a, x)).collect::<Vec<_>>().join(" ")),
+            B::Or(xs) => format!("(or {})", xs.iter().map(|&x| bexpr(a, x)).collect::<Vec<_>>().join(" ")),
+        }
+    }
+    for ev in &a.trace[..upto] {
+        if !collect_b(a, ev.cond, &mut need) {
+            return None;
+        }
+    }
+    let lits: Vec<String> = a.trace[..upto].iter().map(|ev| if ev.outcome { bexpr(a, ev.cond) } else { format!("(not {})", bexpr(a, ev.cond)) }).collect();
+    let mut body = format!("(and true {})", lits.join(" "));
+    // ids grow with creation, so descending order nests definitions inside out
+    for &t in need.iter().rev() {
+        let e = match a.terms[t as usize].t {
+            T::V(i) => {
+                let sh = a.vars[i as usize].shift;
+                if sh == 0 { format!("(to_real x{})", i) } else { format!("(/ (to_real x{}) {})", i, pow2(sh)) }
+            }
+            T::Add(x, y) => format!("(+ {} {})", r(a, x), r(a, y)),
+            T::Sub(x, y) => format!("(- {} {})", r(a, x), r(a, y)),
+            T::Mul(x, y) => format!("(* {} {})", r(a, x), r(a, y)),
+            T::Div(x, y) => format!("(/ {} {})", r(a, x), r(a, y)),
+            T::Neg(x) => format!("(- {})", r(a, x)),
+            T::Abs(x) => format!("(ite (>= {0} 0.0) {0} (- {0}))", r(a, x)),
+            T::Max(x, y) => format!("(ite (>= {0} {1}) {0} {1})", r(a, x), r(a, y)),
+            T::Min(x, y) => format!("(ite (<= {0} {1}) {0} {1})", r(a, x), r(a, y)),
+            T::Fma(x, y, z) => format!("(+ (* {} {}) {})", r(a, x), r(a, y), r(a, z)),
+            T::Ite(c, x, y) => format!("(ite {} {} {})", bexpr(a, c), r(a, x), r(a, y)),
+            _ => return None,
+        };
+        body = format!("(let ((t{} {})) {})", t, e, body);
+    }
+    Some(body)
 }
